@@ -16,4 +16,4 @@ Extraction "model.ml"
   name_arguments
   canon_sig_eqb c04_ok c05_ok c12_ok c13_ok c15_ok no_names
   scan_snapshot scan ss0 func_init parse_args match_file match_func match_routine_header read_line reader0 state_index scan_seq pp_run contains rune_count sig_attrs href_attr html_escape src_url pkg_url func_class
-  guess_paths augment_call handler status_class capture alias_graph is_ptr_value all_scalars.
+  guess_paths augment_call handler status_class capture alias_graph is_ptr_value all_scalars has_suffix.
